@@ -286,7 +286,27 @@ func fileValue(ctx context.Context, decoder rel.Tuple, filename string) (rel.Exp
 	return bytesValue(ctx, filename, bytes)
 }
 
+type importStackKey struct{}
+
+// withImporting records that filename is being imported, or fails if it is
+// already being imported further up the chain, i.e. the imports form a cycle.
+func withImporting(ctx context.Context, filename string) (context.Context, error) {
+	stack, _ := ctx.Value(importStackKey{}).([]string)
+	for _, f := range stack {
+		if f == filename {
+			return ctx, fmt.Errorf("import cycle: %s", strings.Join(append(stack, filename), " -> "))
+		}
+	}
+	return context.WithValue(ctx, importStackKey{}, append(stack[:len(stack):len(stack)], filename)), nil
+}
+
 func bytesValue(ctx context.Context, filename string, data []byte) (rel.Expr, error) {
+	if filename != NoPath {
+		var err error
+		if ctx, err = withImporting(ctx, filename); err != nil {
+			return nil, err
+		}
+	}
 	compile := func() (rel.Expr, error) {
 		return Compile(ctx, filename, string(data))
 	}
